@@ -8,6 +8,7 @@
 //        dropcheck  if c { return ... }  (no else, no init)     -> statement removed (a validation dropped)
 //        andor      a && b <-> a || b in an if condition
 //        lastelem   i < len(x) -> i < len(x)-1 in a for condition (the last element is skipped)
+//        argswap    f(a, b) -> f(b, a) for every pair of adjacent arguments (the compiler filters pairs of different types)
 package main
 
 import (
@@ -108,6 +109,19 @@ func main() {
 								b.Y = &ast.BinaryExpr{X: b.Y, Op: token.SUB, Y: &ast.BasicLit{Kind: token.INT, Value: "1"}}
 								changed = true
 							}
+						}
+					}
+				}
+			case *ast.CallExpr:
+				if *kind == "argswap" && x.Ellipsis == token.NoPos {
+					for i := 0; i+1 < len(x.Args); i++ {
+						// (identical texts swap to the same program; literals of different kinds rarely compile - let the compiler filter)
+						if fmt.Sprint(x.Args[i]) == fmt.Sprint(x.Args[i+1]) {
+							continue
+						}
+						if site(x.Args[i].Pos()) {
+							x.Args[i], x.Args[i+1] = x.Args[i+1], x.Args[i]
+							changed = true
 						}
 					}
 				}
